@@ -174,6 +174,9 @@ impl <T: ArrayElement> ArrayAxis<T> for Array<T> {
             .map(Result::unwrap)
             .collect::<Vec<Array<S>>>();
         let partial_len = partial[0].len()?;
+        if partial.iter().any(|p| p.len().map_or(true, |len| len != partial_len)) {
+            return Err(ArrayError::ShapeMustMatchValuesLength)
+        }
         let partial = partial.into_iter().flatten().collect::<Array<S>>();
 
         let new_shape = array.get_shape()?.update_at(self.ndim()? - 1, partial_len);
